@@ -3,7 +3,7 @@
    (any number of threads, every interleaving). *)
 From Coq Require Import List ZArith Bool Arith.
 From RX Require Import Val Syntax World Step Oracle ConcGate.
-From RXP Require Import Contract Moves Frozen GateInv.
+From RXP Require Import Contract Moves Frozen OpenUntil UnsubOrigin GateInv.
 Import ListNotations.
 
 (* Observer::unsubscribe empties the callback slots in its very first step (before any teardown runs). *)
@@ -32,6 +32,38 @@ Proof. exact unsub_freezes. Qed.
 Check C05_unsubscribe_freezes :
   forall w o u, Inv w -> o_tgt (obs w o) = TUser u -> Frozen u (snd (step (Unsub o) w)).
 Print Assumptions C05_unsubscribe_freezes.
+
+(* The other direction - is_subscribed() is true UNTIL the first terminal or unsubscribe.  EVERY pipeline, every
+   world meeting the invariant, every pending-request stack, every fuel: if a subscriber's observer is subscribed
+   at some point of a run and no longer subscribed at a later one, then in between the machine executed
+   Observer::unsubscribe on that very observer, or the subscriber received a terminal notification (which is then
+   in its log).  No other step of the machine touches the slots of an existing observer (OpenUntil.step_K). *)
+Theorem C05_subscribed_until_terminal_or_unsubscribe :
+  forall fuel stk w o u,
+    Inv w -> o < n_obs w -> o_tgt (obs w o) = TUser u ->
+    is_sub (obs w o) = true -> is_sub (obs (snd (run fuel stk w)) o) = false ->
+    In (Unsub o) (run_reqs fuel stk w) \/ has_term (ulog u (log (snd (run fuel stk w)))) = true.
+Proof. exact open_until_user. Qed.
+Check C05_subscribed_until_terminal_or_unsubscribe :
+  forall fuel stk w o u,
+    Inv w -> o < n_obs w -> o_tgt (obs w o) = TUser u ->
+    is_sub (obs w o) = true -> is_sub (obs (snd (run fuel stk w)) o) = false ->
+    In (Unsub o) (run_reqs fuel stk w) \/ has_term (ulog u (log (snd (run fuel stk w)))) = true.
+Print Assumptions C05_subscribed_until_terminal_or_unsubscribe.
+
+(* ... and Observer::unsubscribe on an observer is requested only by Subscription::unsubscribe on a live
+   subscription of it (the user's handle, a Using guard, a connection slot, a subject's cell) or by the
+   StreamController it belongs to (upstream_abort_observe / finalize for a registered upstream observer;
+   finalize for its subscriber, only while that one is still subscribed).
+   PARTIAL with respect to the property's sentence: that finalize() never reaches a subscriber which has received
+   no terminal is an operator-by-operator fact (take's finalize follows its sink_complete) that is not proved here;
+   the oracle judges it on implementation snapshots after every driver action. *)
+Theorem C05_unsubscribe_requests_come_from_partial :
+  forall r w o, In (Unsub o) (fst (step r w)) -> unsub_source r w o.
+Proof. exact unsub_origin. Qed.
+Check C05_unsubscribe_requests_come_from_partial :
+  forall r w o, In (Unsub o) (fst (step r w)) -> unsub_source r w o.
+Print Assumptions C05_unsubscribe_requests_come_from_partial.
 
 (* Idempotence: a second Subscription::unsubscribe does nothing; a call on a closed observer is a no-op. *)
 Theorem C05_unsubscribe_idempotent :
@@ -62,4 +94,16 @@ Definition c05_example : scenario :=
      sc_script := [DSub 0 (POp (OMap (FAdd 1)) (PManual 0) []) []; DPush 0 (Nx (VInt 1)); DUnsub 0; DPush 0 (Nx (VInt 2)); DPush 0 (Er 4)] |}.
 Example C05_example_log :
   ulog (uenc (UTop 0)) (log (snd (run_scenario 1000 c05_example))) = [Nx (VInt 2)].
+Proof. vm_compute. reflexivity. Qed.
+
+(* ... and in that run the subscriber ends unsubscribed without a terminal in its log: the first disjunct of
+   C05_subscribed_until_terminal_or_unsubscribe is the one that holds (the hypotheses are met by a real run). *)
+Example C05_example_closed_by_unsubscribe :
+  let w := snd (run_scenario 1000 c05_example) in
+  match handles w 0 with
+  | Some (o, _) => (is_sub (obs w o), has_term (ulog (uenc (UTop 0)) (log w)),
+                    existsb (fun r => match r with Unsub o' => Nat.eqb o' o | _ => false end)
+                            (run_reqs 1000 (map Drv (sc_script c05_example)) (init_world c05_example)))
+  | None => (true, true, false)
+  end = (false, false, true).
 Proof. vm_compute. reflexivity. Qed.
